@@ -167,6 +167,7 @@ def timed_cases(draw, classes=("gibbs", "pca", "hmc", "metropolis")):
     unit = draw(st.sampled_from(["minutes", "hours", "days", "mixed"]))
     cfg["budget_steps_log"] = draw(st.floats(0, 3.5))   # budget expressed in (approximate) steps
     cfg["unit"] = unit
+    cfg["pre_steps"] = draw(st.sampled_from([0, 0, 30, 300, 2000]))   # samples already held by the chain before the timed run
     return cfg
 
 
@@ -200,6 +201,12 @@ def body_timed(case, ctx):
     else:
         kw = {"minutes": budget / 180.0, "hours": budget / 10800.0, "days": budget / 259200.0}
     steps_budget = budget / per_step
+    if case.get("pre_steps") and case["cls"] != "ensemble":
+        tgt.clock = None
+        with np.errstate(all="ignore"):
+            for _ in range(case["pre_steps"]):
+                ch.take_step()
+        tgt.clock = clock
     if steps_budget > 3e4:
         raise Inconclusive("budget too many steps for a quick case")
     start_len = ch.chain_length
@@ -237,6 +244,7 @@ def body_timed(case, ctx):
     ctx.event("cls=" + cls)
     ctx.event("step>1s" if per_step > 1.0 else ("step>1ms" if per_step > 1e-3 else "step<=1ms"))
     ctx.event("unit=" + case["unit"])
+    ctx.event("prior-samples=%d" % case.get("pre_steps", 0))
 
 
 SUBCHECKS = [
